@@ -63,15 +63,16 @@ def pairs_to_dict(value: Any) -> Any:
     return value
 
 
-def parse(ns: tuple, given: Dict[str, Any]) -> Dict[str, Any]:
-    """Complete ``given`` with the declared defaults."""
+def parse(ns: tuple, given: Dict[str, Any], verbatim_ns_defaults: bool = False) -> Dict[str, Any]:
+    """Complete ``given`` with the declared defaults.  A namespace's own default is itself completed with the defaults of the
+    ports inside it, or - ``verbatim_ns_defaults``, the statement does not rank the two kinds of default - taken as it is."""
     out = dict(given)
     for name, e in ns[5]:
         if name in given:
             if not is_port(e):
                 if not isinstance(given[name], dict):
                     raise Rejected(f'{name} is a namespace, its value must be a mapping')
-                out[name] = parse(e, given[name])
+                out[name] = parse(e, given[name], verbatim_ns_defaults)
             continue
         if is_port(e):
             if e[3] != NODEFAULT:
@@ -80,16 +81,22 @@ def parse(ns: tuple, given: Dict[str, Any]) -> Dict[str, Any]:
             if not e[3]:  # populate_defaults is False and nothing was supplied
                 continue
             if ns_default(e) != NODEFAULT:  # the namespace's own default, itself completed with the defaults inside
-                out[name] = parse(e, pairs_to_dict(ns_default(e)[1]))
+                default = pairs_to_dict(ns_default(e)[1])
+                out[name] = default if verbatim_ns_defaults else parse(e, default, verbatim_ns_defaults)
             elif e[5]:  # a namespace with ports is considered recursively
-                out[name] = parse(e, {})
+                out[name] = parse(e, {}, verbatim_ns_defaults)
     return out
 
 
-def validate(ns: tuple, parsed: Dict[str, Any]) -> None:
-    """Raises Rejected if the (completed) mapping does not conform."""
-    if not parsed and not ns[1]:
+def validate(ns: tuple, parsed: Dict[str, Any], raw: Any = None, strict: bool = False, skip_absent: bool = False) -> None:
+    """Raises Rejected if the (completed) mapping does not conform.  ``raw`` is what the caller gave for this namespace
+    (ABSENT if nothing).  An optional namespace that got nothing is not looked into; ``strict`` selects the reading in
+    which an *empty mapping given explicitly* is something (and the required ports inside are then missing), the default
+    is the reading in which it is nothing."""
+    if not parsed and not ns[1] and not (strict and raw is not ABSENT and raw is not None):
         return  # an optional namespace that got nothing
+    if skip_absent and not ns[1] and raw is ABSENT:
+        return  # (third reading) an optional namespace the caller gave nothing for, whatever the defaults put there
     rest = dict(parsed)
     for name, e in ns[5]:
         present = name in rest
@@ -104,7 +111,8 @@ def validate(ns: tuple, parsed: Dict[str, Any]) -> None:
             if e[4] == 'neg' and port_validator(value, None) is not None:
                 raise Rejected(f'{name} rejected by its validator')
         else:
-            validate(e, value if present else {})
+            sub_raw = raw.get(name, ABSENT) if isinstance(raw, dict) else ABSENT
+            validate(e, value if present else {}, sub_raw, strict, skip_absent)
     if rest:
         if ns[2] == 'static':
             raise Rejected(f'undeclared {sorted(rest)}')
@@ -122,9 +130,10 @@ def check_dynamic(values: Any) -> None:
         raise Rejected('dynamic value of the wrong type')
 
 
-def accept(ns: tuple, given: Dict[str, Any]) -> Dict[str, Any]:
-    parsed = parse(ns, given)
-    validate(ns, parsed)
+def accept(ns: tuple, given: Dict[str, Any], strict: bool = False, verbatim_ns_defaults: bool = False,
+           skip_absent: bool = False) -> Dict[str, Any]:
+    parsed = parse(ns, given, verbatim_ns_defaults)
+    validate(ns, parsed, given, strict, skip_absent)
     return parsed
 
 
